@@ -5,6 +5,7 @@ package hcopy
 // directories, run under the controlled scheduler inside a synctest bubble.
 
 import (
+	"net/http"
 	"context"
 	"encoding/json"
 	"errors"
@@ -54,6 +55,13 @@ type Scen struct {
 	// copy: "list-filtered" = the referrers of the source image were listed with an artifact-type
 	// filter, "list" = without one, "head" = the source manifest was looked at
 	Warm string `json:"warm,omitempty"`
+	// FailShared: the source never serves the blobs that more than one manifest of the image names
+	// (GET answered 404 every time): the environment of the scenario, not a deviation. LogPoints:
+	// every log record of warning level or above that the client emits is a scheduling point, so that
+	// a goroutine can be held between publishing a result and acting on it (goroutines woken through a
+	// channel otherwise run on in an order the scheduler does not choose)
+	FailShared bool `json:"fail_shared,omitempty"`
+	LogPoints  bool `json:"log_points,omitempty"`
 }
 
 func (s Scen) String() string {
@@ -75,6 +83,12 @@ func (s Scen) String() string {
 	}
 	if s.Warm != "" {
 		d += " warm=" + s.Warm
+	}
+	if s.FailShared {
+		d += " shared-blobs-unservable"
+	}
+	if s.LogPoints {
+		d += " log-points"
 	}
 	return fmt.Sprintf("%s %s opt=%s feat=%s pre=%s%s", s.Graph, s.Pair, s.Opt, s.Feat, s.Pre, d)
 }
@@ -430,8 +444,32 @@ func Run(t *testing.T, c *explore.Ctx, sc Scen, p Params, scratchRoot string) (*
 				sched.Point(qsched.KHTTP, l)
 			}
 		}
+		shared := map[string]bool{}
+		if sc.FailShared {
+			cnt := map[string]int{}
+			for _, m := range x.G.Manifests {
+				seen := map[string]bool{}
+				for _, d := range audit.References(m.Body, false) {
+					if _, isBlob := x.G.Blobs[d]; isBlob && !seen[d] {
+						seen[d] = true
+						cnt[d]++
+					}
+				}
+			}
+			for d, n := range cnt {
+				if n > 1 {
+					shared[d] = true
+				}
+			}
+		}
 		x.Net.Decide = func(e *modelreg.Entry) *modelreg.Answer {
 			x.monitor(e)
+			if sc.FailShared && e.Method == "GET" && e.Host == srcHost && e.Kind == "blob-get" && shared[e.Ref] {
+				if p.Decide != nil {
+					x.invariant("before request " + fmt.Sprint(e.Seq))
+				}
+				return &modelreg.Answer{Status: 404, Header: http.Header{}, Body: []byte(`{"errors":[{"code":"BLOB_UNKNOWN"}]}`), Note: "env-unservable"}
+			}
 			if p.Decide != nil {
 				return p.Decide(x, e)
 			}
@@ -441,6 +479,13 @@ func Run(t *testing.T, c *explore.Ctx, sc Scen, p Params, scratchRoot string) (*
 		ro := rcenv.Opts{}
 		if os.Getenv("VERIF_TRACE") != "" {
 			ro.Slog = slog.New(slog.NewTextHandler(os.Stdout, &slog.HandlerOptions{Level: slog.LevelDebug}))
+		}
+		if sc.LogPoints {
+			ro.Slog = slog.New(&pointLog{at: func() {
+				if sched != nil {
+					sched.Point(qsched.KYield, "log")
+				}
+			}})
 		}
 		if sc.Retry || sc.Warm != "" {
 			ro.RegOpts = []reg.Opts{reg.WithCache(5*time.Minute, 500)}
@@ -512,6 +557,14 @@ type PostState struct {
 }
 
 var _ = errors.Is
+
+// pointLog is a slog handler that emits nothing: a record of warning level or above is a scheduling point
+type pointLog struct{ at func() }
+
+func (l *pointLog) Enabled(_ context.Context, lv slog.Level) bool { return lv >= slog.LevelWarn }
+func (l *pointLog) Handle(context.Context, slog.Record) error    { l.at(); return nil }
+func (l *pointLog) WithAttrs([]slog.Attr) slog.Handler            { return l }
+func (l *pointLog) WithGroup(string) slog.Handler                 { return l }
 
 func descMatchSig() descriptor.MatchOpt {
 	return descriptor.MatchOpt{ArtifactType: "application/vnd.example.sig"}
